@@ -141,6 +141,7 @@ func (fai *FuelAccountItem) Validate() error {
 			validation.Required,
 			validation.Length(1, 300),
 		),
+		validation.Field(&fai.Unit),
 		validation.Field(&fai.Price, num.Positive),
 	)
 }
